@@ -1,9 +1,9 @@
 import LoguruModel.Retention.Model
-import LoguruModel.Rotation.Parsers
+import LoguruModel.Retention.Duration
 /-
 `FileSink._make_retention_function` – what the `retention=` argument of `add()` denotes.
 Durations are exact integers of MICROSECONDS (a `timedelta` holds exactly that); the string branch
-goes through the Rotation area's model of `parse_duration` (`Rotation.parseDuration`, every
+goes through C10's own model of `parse_duration` (`Retention.Dur.parseDuration`, every
 documented spelling: several units, fractional values, `ms`/`us`), the keyword expressions
 `number=…` and `seconds=…` are the GENERATED kernels.  Clock values and modification times of an
 age policy built here are microseconds as well.
@@ -32,7 +32,7 @@ inductive Configured where
 def makeRetention : RetArg → Except Err Configured
   | .none => .ok .noRetention
   | .str s =>
-    match Rotation.parseDuration s with
+    match Dur.parseDuration s with
     | .error e => .error e
     | .ok Option.none => .error .valueError          -- "Cannot parse retention from: …"
     | .ok (some us) => .ok (.policy (.age (Gen.ageSecondsUs us)))   -- the recursive call on the timedelta
